@@ -151,9 +151,20 @@ class C42(Prop):
                     kind = "multi-saturated"
                 else:
                     y, kind = self._simplex(rng, nph)
-                rho = [Fr(rng.randint(1, 256), 4) for _ in range(nph)]
+                # densities: dyadic, common exact power-of-two scale over many orders of magnitude
+                scale = Fr(2) ** rng.choice([0, 0, 0, -30, -12, 10, 30])
+                rho = [Fr(rng.randint(1, 256), 4) * scale for _ in range(nph)]
+                two_d = rng.random() < 0.5
+                extra = []
+                if two_d and kind != "multi-saturated" and rng.random() < 0.6:
+                    # further columns of the same vectorised call (each compared on its own)
+                    for _c in range(rng.randint(1, 2)):
+                        y2, k2 = self._simplex(rng, nph)
+                        rho2 = [Fr(rng.randint(1, 256), 4) * scale for _ in range(nph)]
+                        extra.append({"y": [_pack(v) for v in y2], "rho": [_pack(v) for v in rho2],
+                                      "sub": k2})
                 yield {"kind": "sat", "sub": kind, "y": [_pack(v) for v in y],
-                       "rho": [_pack(v) for v in rho], "two_d": rng.random() < 0.5}
+                       "rho": [_pack(v) for v in rho], "two_d": two_d, "extra": extra}
             elif r < 0.85:
                 nc = rng.randint(1, 5)
                 lead = rng.randint(0, 3)
@@ -185,13 +196,18 @@ class C42(Prop):
     # ---------------------------------------------------------------- implementation
     def run_impl(self, case):
         if case["kind"] == "sat":
-            y = np.array([float(_fr(v)) for v in case["y"]])
-            rho = np.array([float(_fr(v)) for v in case["rho"]])
-            if case["two_d"]:
-                y, rho = y.reshape(-1, 1), rho.reshape(-1, 1)
+            cols = [case] + list(case.get("extra", []))
+            y = np.array([[float(_fr(v)) for v in c["y"]] for c in cols]).T
+            rho = np.array([[float(_fr(v)) for v in c["rho"]] for c in cols]).T
+            if not case["two_d"]:
+                y, rho = y[:, 0].copy(), rho[:, 0].copy()
+            y0, rho0 = y.copy(), rho.copy()
             try:
                 s = compute_saturations(y, rho)
-                return {"out": ["vals", [float(v) for v in np.asarray(s).ravel()]]}
+                assert np.array_equal(y, y0) and np.array_equal(rho, rho0), "inputs modified"
+                s = np.asarray(s).reshape(len(case["y"]), -1)
+                return {"out": ["vals", [float(v) for v in s[:, 0]]],
+                        "extra_out": [[float(v) for v in s[:, k]] for k in range(1, s.shape[1])]}
             except ValueError:
                 return {"out": ["err", "ValueErr"]}
             except AssertionError:
@@ -219,9 +235,23 @@ class C42(Prop):
                 return None
             if res["out"][0] == "err":
                 return f"compute_saturations raised {res['out'][1]} for fractions on the simplex"
-            y = [_fr(v) for v in case["y"]]
-            rho = [_fr(v) for v in case["rho"]]
-            s = [Fr(v) for v in res["out"][1]]
+            for c, o in zip(case.get("extra", []), res.get("extra_out", [])):
+                w = self._sat_column(c["y"], c["rho"], o)
+                if w:
+                    return "additional column of the vectorised call: " + w
+            return self._sat_column(case["y"], case["rho"], res["out"][1])
+        if case["kind"] == "chain":
+            return self._chain_oracle(case, res)
+        for i, row in enumerate(res["out"]):
+            if not _close(sum(Fr(v) for v in row), Fr(1)):
+                return f"normalised row {i} sums to {sum(row)!r}"
+        return None
+
+    def _sat_column(self, yv, rhov, out):
+        if True:
+            y = [_fr(v) for v in yv]
+            rho = [_fr(v) for v in rhov]
+            s = [Fr(v) for v in out]
             if len(s) != len(y):
                 return "wrong number of saturations"
             if any(v < -TOL for v in s):
@@ -235,7 +265,9 @@ class C42(Prop):
                     return (f"phase {j}: rho_j s_j / sum rho s = {float(back)!r} but y_j = "
                             f"{float(y[j])!r}")
             return None
-        if case["kind"] == "chain":
+
+    def _chain_oracle(self, case, res):
+        if True:
             if res["out"][0] == "err":
                 return None
             df = [Fr(v) for v in case["df"]]
@@ -259,10 +291,6 @@ class C42(Prop):
                     return (f"d/dx_{j} of the composed function: chain rule gives "
                             f"{float(out[lead + j])!r}, central difference {float(fd)!r}")
             return None
-        for i, row in enumerate(res["out"]):
-            if not _close(sum(Fr(v) for v in row), Fr(1)):
-                return f"normalised row {i} sums to {sum(row)!r}"
-        return None
 
     # ---------------------------------------------------------------- tie
     def coq_case(self, case, res):
@@ -272,6 +300,11 @@ class C42(Prop):
             if case["sub"] == "mixed" and res["out"][0] == "vals":
                 t = (f"({t}) && agree_closed {clist(case['y'], _q)} {clist(case['rho'], _q)} "
                      f"{clist(res['out'][1], lambda v: cq(Fr(v)))}")
+            for c, o in zip(case.get("extra", []), res.get("extra_out", [])):
+                t = (f"({t}) && agree_sat {clist(c['y'], _q)} {clist(c['rho'], _q)} {cq(Fr(EPS))} "
+                     f"{_out(['vals', o])}")
+            if len(case.get("extra", [])) != len(res.get("extra_out", [])) and res["out"][0] == "vals":
+                t = f"({t}) && false"
             return t
         if case["kind"] == "chain":
             return (f"agree_chain {clist(case['df'], lambda v: cq(Fr(v)))} {clist(case['x'], _q)} "
